@@ -288,10 +288,10 @@ func (h *WHist) OracleBackPressure(e *Env, segs []wseg) {
 		}
 		// blocking mode: waiting ends when the caller's context ends
 		if cfg.Chan.Until && (c.Entry == ECtxWrite1 || c.Entry == ECtxWritev) {
-			if c.CtxMode == CtxCancelled && c.BlockedAt != 0 {
+			if c.CtxMode == CtxCancelled && (c.BlockedAt != 0 || c.WaitedMutex) {
 				e.Violate("cancellable", classOf(c, cfg.Chan)+",already-cancelled", "%s was given an already cancelled context, yet it parked waiting for queue space", c)
 			}
-			if c.CtxMode == CtxDeadline && c.BlockedAt != 0 && c.RetAt-c.InvAt > 300*time.Millisecond {
+			if c.CtxMode == CtxDeadline && (c.BlockedAt != 0 || c.WaitedMutex) && c.RetAt-c.InvAt > 300*time.Millisecond {
 				e.Violate("cancellable", classOf(c, cfg.Chan)+",deadline", "%s kept waiting for %v although its context expired after 300ms", c, c.RetAt-c.InvAt)
 			}
 		}
